@@ -286,6 +286,9 @@ func runPipe(t *testing.T, tape *simrt.Tape, g simrt.Gen, o *common.Outcome) {
 			judgeControl(o, s, what)
 		}
 		sig += fmt.Sprintf("%s:%s|%s|%s|%s>%s,%s|fired=%v;", s.name, s.I.p, s.R.p, s.m.ed, s.I.outcome(), s.R.outcome(), s.I.mustFail+s.R.mustFail, s.m.fired)
+		if s.m.restored() {
+			o.Probe("truncation-restored-by-following-bytes")
+		}
 		if s.m.fired {
 			o.Fault(fmt.Sprintf("wire-%s-%s", protoName(c.tls), edNames[s.m.ed.kind]))
 			if s.m.ed.kind != edReroute {
